@@ -8,7 +8,7 @@ from .. import refcodec as rc
 
 ID = "C17"
 LEVEL = "exploration"
-SHARDS = {"quick": 4, "thorough": 16}
+SHARDS = {"quick": 8, "thorough": 16}
 RULE = ("1..3 hosts on a simulated UDP network, each with source IPv4 address, 48-bit id (byte-boundary bias), port 1..65535, "
         "32-char serial, name net_<tt>_<suffix> with tt = any byte in lower or upper hex, reported IP equal to or different from "
         "the source, 0..80 trailing body bytes, reply version 2 or 3, listening on 6445 or 20086, replying from either port after "
@@ -126,4 +126,4 @@ def run(ctx) -> None:
         st.tuples(host_strategy(1), st.booleans()).map(lambda t: {"hosts": [t[0]], "single": t[1]}),
         st.tuples(host_strategy(1), host_strategy(2)).map(lambda t: {"hosts": list(t)}),
         st.tuples(host_strategy(1), host_strategy(2), host_strategy(3)).map(lambda t: {"hosts": list(t)}))
-    ctx.hyp("hosts", cases, lambda c: _run_one(ctx, c), ctx.n(1500, 160000))
+    ctx.hyp("hosts", cases, lambda c: _run_one(ctx, c), ctx.n(3000, 200000))
